@@ -261,6 +261,79 @@ Definition view_coord_iter (c : cfg) (s : state) : list (list agent * coord) :=
   map (fun p => (grid s p, p)) (all_cells c).
 Definition view_agents (c : cfg) (s : state) : list agent := flat_map (grid s) (all_cells c).
 
+(* ---- the indexing forms of _Grid.__getitem__ and get/iter_cell_list_contents ---- *)
+Definition E_INDEX : Z := 9.        (* IndexError: list index out of range *)
+
+(* the indices a Python slice lo:hi (no step) selects from a list of length n *)
+Definition slice_bound (n : Z) (dflt : Z) (b : option Z) : Z :=
+  match b with
+  | None => dflt
+  | Some k => let k := if k <? 0 then k + n else k in Z.max 0 (Z.min n k)
+  end.
+Definition pyslice (n : Z) (lo hi : option Z) : list Z :=
+  zrange (slice_bound n 0 lo) (slice_bound n n hi - 1).
+
+Inductive rform :=
+| FCol (x : Z)                                     (* grid[x]            -> self._grid[x] (plain list indexing) *)
+| FList (l : list coord)                           (* grid[(x1, y1), (x2, y2), ...]  (through torus_adj) *)
+| FSliceY (x : Z) (lo hi : option Z)               (* grid[x, lo:hi] *)
+| FSliceX (lo hi : option Z) (y : Z)               (* grid[lo:hi, y] *)
+| FSliceXY (xlo xhi ylo yhi : option Z)            (* grid[a:b, c:d] *)
+| FCellList (l : list coord) (single : bool).      (* get_cell_list_contents / iter_cell_list_contents; single =
+                                                      one coordinate passed as a bare tuple (accept_tuple_argument) *)
+
+Definition view_col (c : cfg) (s : state) (x : Z) : option (list (list agent)) :=
+  if (- c_w c <=? x) && (x <? c_w c)
+  then Some (map (fun y => grid s (x mod c_w c, y)) (zrange 0 (c_h c - 1))) else None.
+
+Fixpoint view_list (c : cfg) (s : state) (l : list coord) : option (list (list agent)) :=
+  match l with
+  | [] => Some []
+  | p :: t => match torus_adj c p with
+              | None => None
+              | Some p' => match view_list c s t with None => None | Some r => Some (grid s p' :: r) end
+              end
+  end.
+
+Definition view_slice_y (c : cfg) (s : state) (x : Z) (lo hi : option Z) : option (list (list agent)) :=
+  match torus_adj c (x, 0) with
+  | None => None
+  | Some p => Some (map (fun y => grid s (fst p, y)) (pyslice (c_h c) lo hi))
+  end.
+Definition view_slice_x (c : cfg) (s : state) (lo hi : option Z) (y : Z) : option (list (list agent)) :=
+  match torus_adj c (0, y) with
+  | None => None
+  | Some p => Some (map (fun x => grid s (x, snd p)) (pyslice (c_w c) lo hi))
+  end.
+Definition view_slice_xy (c : cfg) (s : state) (xlo xhi ylo yhi : option Z) : list (list agent) :=
+  flat_map (fun x => map (fun y => grid s (x, y)) (pyslice (c_h c) ylo yhi)) (pyslice (c_w c) xlo xhi).
+Definition view_cell_list (s : state) (l : list coord) : list agent := flat_map (grid s) l.
+
+Definition obs_cells (l : list (list agent)) : list Z := flat_map obs_cell l.
+
+Definition view_form (c : cfg) (s : state) (f : rform) : res :=
+  match f with
+  | FCol x => match view_col c s x with Some r => Ok (obs_cells r) | None => Err E_INDEX end
+  | FList l => match l with
+               | [] => Skip                                   (* index[0] of an empty tuple: not generated *)
+               | _ => match view_list c s l with Some r => Ok (obs_cells r) | None => Err E_OOB end
+               end
+  | FSliceY x lo hi => match view_slice_y c s x lo hi with Some r => Ok (obs_cells r) | None => Err E_OOB end
+  | FSliceX lo hi y => match view_slice_x c s lo hi y with Some r => Ok (obs_cells r) | None => Err E_OOB end
+  | FSliceXY a b d e => Ok (obs_cells (view_slice_xy c s a b d e))
+  | FCellList l single =>
+    if forallb (fun p => negb (out_of_bounds c p)) l && (negb single || (Z.of_nat (length l) =? 1))
+    then let r := view_cell_list s l in Ok (b2z (has_dup r) :: zsort r) else Skip
+  end.
+
+(* ---- property layers (PropertyLayer objects attached to the grid): they live beside the grid state ---- *)
+Definition layers := Z -> coord -> Z.                 (* layer number -> data[x, y] *)
+Definition linit : layers := fun i _ => i.            (* the driver's default value of layer i is i *)
+Inductive lop :=
+| LSet (i : Z) (p : coord) (v : Z)                    (* grid.properties[name_i].set_cell(p, v) *)
+| LFill (i : Z) (v : Z)                               (* grid.properties[name_i].set_cells(v) *)
+| LGet (i : Z) (p : coord).                           (* grid.properties[name_i].data[p] *)
+
 (* ---- histories ---- *)
 Inductive op :=
 | Place (a : agent) (p : coord)
@@ -270,7 +343,9 @@ Inductive op :=
 | MoveToEmpty (a : agent) (sampling : bool) (out : coord)
 | MoveToOneOf (a : agent) (cells : list coord) (sl : sel) (he : hempty) (out : coord)
 | ReadEmpties | ReadMask | IsCellEmpty (p : coord) | ExistsEmpty
-| Index (p : coord) | Iter | CoordIter | Agents.
+| Index (p : coord) | Iter | CoordIter | Agents
+| ReadForm (f : rform)      (* the other indexing forms *)
+| LayerOp (l : lop).        (* acts on the layers only: see lstep *)
 
 Definition placed (s : state) (a : agent) : bool :=
   match pos s a with None => false | Some _ => true end.
@@ -299,6 +374,8 @@ Definition step (c : cfg) (s : state) (o : op) : state * res :=
   | Iter => (s, Ok (flat_map obs_cell (view_iter c s)))
   | CoordIter => (s, Ok (flat_map (fun x => enc (snd x) :: obs_cell (fst x)) (view_coord_iter c s)))
   | Agents => let l := view_agents c s in (s, Ok (b2z (has_dup l) :: zsort l))
+  | ReadForm f => (s, view_form c s f)
+  | LayerOp _ => (s, Skip)           (* no effect on the grid state; lstep gives the layer effect *)
   end.
 
 (* ---- observation of the whole state after every operation (n agents, ids 1..n) ---- *)
@@ -333,5 +410,39 @@ Fixpoint run_obs (c : cfg) (n : Z) (s : state) (ops : list op) : list (list Z) :
     (obs_res r ++ (-8) :: obs_state c n s') :: run_obs c n s' t
   end.
 
-Record case := { k_cfg : cfg; k_n : Z; k_ops : list op }.
-Definition run_case (k : case) : list (list Z) := run_obs (k_cfg k) (k_n k) init (k_ops k).
+(* ---- the grid together with its k property layers ---- *)
+Definition upd_l (L : layers) (i : Z) (f : coord -> Z) : layers := fun j => if j =? i then f else L j.
+
+Definition lstep (c : cfg) (k : Z) (sl : state * layers) (o : op) : (state * layers) * res :=
+  match o with
+  | LayerOp l =>
+    let '(s, L) := sl in
+    match l with
+    | LSet i p v =>
+      if (0 <=? i) && (i <? k) && negb (out_of_bounds c p) then ((s, upd_l L i (upd_c (L i) p v)), Ok []) else (sl, Skip)
+    | LFill i v => if (0 <=? i) && (i <? k) then ((s, upd_l L i (fun _ => v)), Ok []) else (sl, Skip)
+    | LGet i p => if (0 <=? i) && (i <? k) && negb (out_of_bounds c p) then (sl, Ok [L i p]) else (sl, Skip)
+    end
+  | _ => let '(s', r) := step c (fst sl) o in ((s', snd sl), r)
+  end.
+
+Definition obs_layers (c : cfg) (k : Z) (L : layers) : list Z :=
+  flat_map (fun i => map (L i) (all_cells c)) (zrange 0 (k - 1)).
+
+Fixpoint lrun (c : cfg) (k : Z) (sl : state * layers) (ops : list op) : state * layers :=
+  match ops with
+  | [] => sl
+  | o :: t => lrun c k (fst (lstep c k sl o)) t
+  end.
+
+Fixpoint lrun_obs (c : cfg) (n k : Z) (sl : state * layers) (ops : list op) : list (list Z) :=
+  match ops with
+  | [] => []
+  | o :: t =>
+    let '(sl', r) := lstep c k sl o in
+    (obs_res r ++ (-8) :: obs_state c n (fst sl') ++ (-9) :: obs_layers c k (snd sl')) :: lrun_obs c n k sl' t
+  end.
+
+Record case := { k_cfg : cfg; k_n : Z; k_layers : Z; k_ops : list op }.
+Definition run_case (k : case) : list (list Z) :=
+  lrun_obs (k_cfg k) (k_n k) (k_layers k) (init, linit) (k_ops k).
